@@ -11,5 +11,5 @@ trap 'rm -rf "$tmp"' EXIT
 mkdir -p "$tmp/cmd0"
 printf 'module ref\n\ngo 1.20\n' > "$tmp/go.mod"
 printf 'package main\nimport ("fmt";"math";"strings";"strconv";"errors")\nfunc main(){fmt.Println(math.Pi, strings.ToUpper("a"), strconv.Itoa(1), errors.New("x"))}\n' > "$tmp/cmd0/main.go"
-(cd "$tmp" && GOARCH=386 GOOS=linux CGO_ENABLED=0 go build -o bin/ ./...)
+(cd "$tmp" && GOCACHE="$(cd "$OLDPWD" && pwd)/bin/gocache-ref" GOARCH=386 GOOS=linux CGO_ENABLED=0 go build -o bin/ ./...)
 echo setup ok
